@@ -40,11 +40,14 @@ type Tr struct {
 	inlineStack  []string
 	cntSyms      map[string]string
 	lemmaDepth   int
+	stores       map[string]storeRec
+	freshRefs    map[string]bool
 }
 
 func newTr(g *Global, fn *ssa.Function, key string, fc *FuncContract) *Tr {
 	return &Tr{g: g, fn: fn, key: key, fc: fc, sc: newScript(), initVars: map[string]Value{}, heapSorts: map[string]string{},
-		typeFactDone: map[string]bool{}, oblCount: map[string]int{}, assumptions: map[string]bool{}, cntSyms: map[string]string{}}
+		typeFactDone: map[string]bool{}, oblCount: map[string]int{}, assumptions: map[string]bool{}, cntSyms: map[string]string{},
+		stores: map[string]storeRec{}, freshRefs: map[string]bool{}}
 }
 
 type retPoint struct {
@@ -268,6 +271,7 @@ func (tr *Tr) locOf(v Value, t types.Type) Loc {
 
 func (tr *Tr) freshRef(st *State, hint string) string {
 	r := tr.freshSym(hint, false)
+	tr.freshRefs[r] = true
 	tr.sc.fact(sEq(r, st.top))
 	nt := tr.freshSym("top", false)
 	tr.sc.fact(sEq(nt, sAdd(st.top, "1")))
